@@ -18,7 +18,10 @@ def gen_jobs(ctx):
         {"kind": "filler", "sub": [], "reopen": False, "ops": [W(), W(), W(), W(1), W(1), W(1)]},
         {"kind": "multi", "reopen": False, "writers": [[W(), W(), W()], [W(1), W()]]},
         {"kind": "filler", "sub": [7, 8], "reopen": False, "ops": [W(), W(), W(2)]},
-        {"kind": "filler", "sub": [7], "reopen": False, "ops": [W()]}]}, "algs": ["sha256"], "with_root": False})
+        {"kind": "filler", "sub": [7], "reopen": False, "ops": [W()]},
+        # continued writing into directories that are already known children (same nested and same first-level directory again)
+        {"kind": "filler", "sub": [7, 8], "reopen": True, "ops": [W(), W(1)]},
+        {"kind": "filler", "sub": [7], "reopen": False, "ops": [W(), W(), W()]}]}, "algs": ["sha256"], "with_root": False})
     for i in range(ctx.scale(4, 40)):
         fmt = rng.choice(["fb", "npz", "fb", "tfrec"]) if not ctx.quick else rng.choice(["fb", "npz"])
         spec = iterlib.gen_dataset(rng, fmt=fmt, min_shards=rng.choice([1, 2, 3]))
